@@ -337,6 +337,11 @@ def run(ctx: Context, rep) -> None:
                message="executor.map(...) must be consumed by the generator "
                "(yield from), so a failed shard raises in the consumer")
 
+    # the failure reaches the consumer only if the consumer is never blocked
+    # on a queue it does not own (finish_and_reset runs right before the
+    # re-raise): same ownership rule as C13.owner
+    from sa.rules.c13 import check_owner
+    check_owner(ctx, rep, "C07.pool-owner")
     rustrules.check_recv(ctx, rep, "C07.rust-recv")
     rustrules.panic_inventory(ctx, rep, "C07.rust-panics")
     from sa.rules import common as C
@@ -374,6 +379,31 @@ def run(ctx: Context, rep) -> None:
     # C01.npz-reader)
     from sa.rules.c01 import check_npz_reader
     check_npz_reader(ctx, rep, "C07.npz-length")
+    # decoder strictness: np.load(allow_pickle=True) accepts any pickle
+    # stream as shard content (a damaged file that happens to unpickle to a
+    # mapping is read as an empty shard and silently skipped)
+    rep.rule(
+        "C07.npz-strict",
+        "every numpy.load in sedpack's read path leaves allow_pickle off "
+        "(frozen fact: with allow_pickle=True content that is neither a zip "
+        "nor an .npy file is handed to pickle.load instead of being rejected)")
+    n_loads = 0
+    for fn in ctx.repo.all_functions():
+        if not fn.module.name.startswith("sedpack.io"):
+            continue
+        for cl in fn.calls():
+            if not ctx.is_call(fn, cl, "numpy.load"):
+                continue
+            n_loads += 1
+            ap = ctx.arg(cl, 2, "allow_pickle")
+            lax = ap is not None and not (isinstance(ap, ast.Constant) and
+                                          ap.value is False)
+            star = any(k.arg is None for k in cl.keywords)
+            rep.ob("C07.npz-strict", not lax and not star, loc=fn.loc(cl),
+                   where=fn.qualname, construct=short(cl, 70),
+                   message="the npz decoder must reject content that is not "
+                   "an npz archive")
+    rep.floor("C07.npz-strict", n_loads, 2, "numpy.load sites")
 
 
 
@@ -387,6 +417,12 @@ _TRY = '''            try:
             self._results.put(result)
 '''
 SELFTESTS = [
+    dict(rule="C07.npz-strict", name="npz-allow-pickle", expect="fire",
+         path="src/sedpack/io/npz/iterate_npz.py",
+         old="np.load(file_path)", new="np.load(file_path, allow_pickle=True)"),
+    dict(rule="C07.npz-strict", name="npz-allow-pickle-false-twin", expect="silent",
+         path="src/sedpack/io/npz/iterate_npz.py",
+         old="np.load(file_path)", new="np.load(file_path, allow_pickle=False)"),
     dict(rule="C07.worker", name="remove-try", expect="fire", path=_LP,
          old=_TRY, new="            self._results.put(self.func(element))\n"),
     dict(rule="C07.worker", name="handler-logs-and-continues", expect="fire",
